@@ -41,6 +41,14 @@ func Dump(p *Prog, what string) {
 			DumpParams(p, what[7:])
 			return
 		}
+		if len(what) > 4 && what[:4] == "ssa:" {
+			if fn := p.Fn(what[4:]); fn != nil {
+				fn.WriteTo(os.Stdout)
+			} else {
+				fmt.Println("no such function")
+			}
+			return
+		}
 		if len(what) > 7 && what[:7] == "bounds:" {
 			DumpBounds(p, what[7:])
 			return
